@@ -224,6 +224,23 @@ func RunHistory(t *core.T) {
 			}
 			r.m.Add(x)
 		}
+		if s.Chance(1, 3, "drain") {
+			// thousands of removals, in a drawn order, down to a handful of pointers
+			keep := s.Intn(6, "keep")
+			for len(r.m.Live) > keep && !t.Failed() {
+				target := r.m.Live[s.Intn(len(r.m.Live), "drainvictim")]
+				var got bool
+				if t.Guard("Remove", func() { got = r.tr.Remove(target, func(p orb.Pointer) bool { return p == orb.Pointer(target) }) }) {
+					return
+				}
+				if !got {
+					r.fail("remove-report", "Remove", "while draining a tree of %d pointers: Remove(identity %v) returned false", len(r.m.Live), target)
+					return
+				}
+				r.m.RemoveIdentity(target)
+			}
+			t.Probe("drained_tree")
+		}
 		t.Probe("preloaded_tree")
 		t.Logf("preloaded %d pointers (every third at %v)", n, r.w.Pool[dup])
 		if !r.contents("preload") {
